@@ -204,7 +204,7 @@ def build_harness(name, spec, engines=('pr',)):
     libobjs, _ = build_lib(variant)
     archive = _archive(variant, libobjs)
     odir = os.path.join(BUILD, variant, 'h', name)
-    cmd = cxx_cmd(variant) + spec.get('extra_flags', [])
+    cmd = cxx_cmd(variant) + (VARIANTS[variant]['libextra'] if spec.get('coverage', True) else []) + spec.get('extra_flags', [])
     jobs = []
     objs = []
     for s in spec['src']:
